@@ -323,7 +323,8 @@ def _race_reports(out):
     for blk in re.findall(r"WARNING: DATA RACE\n(.*?)\n==================", out, re.S):
         funcs = re.findall(r"^  (github\.com/gocql/gocql\S*?)\(", blk, re.M)
         # the two accessing frames are the first frame after "Read at"/"Write at"/"Previous ..." lines
-        acc = re.findall(r"(?:Read|Write|Previous read|Previous write) at [^\n]*\n  (\S+?)\(", blk)
+        acc = re.findall(r"(?:Read|Write|Previous read|Previous write|Atomic read|Atomic write|Previous atomic read|Previous atomic write)"
+                         r" at [^\n]*\n  (\S+)\(\)", blk)
         drv = [f for f in acc if "gocql" in f and not re.search(r"gocql\.(\(\*)?(vf|Vf|TestVf)", f)]
         res.append((acc, drv, blk))
     return res
